@@ -291,6 +291,8 @@ _LOOP_CODES = {
     "Implfree-run-returned-before-quiescence": "free run: Run() returned although a timeout it had set had not run",
     "Implfree-ran-after-terminate": "free run: work requested before Terminate() returned ran after the restart",
     "Implfree-accepted-not-run-by-terminate": "free run: functions accepted before Terminate() had not all run when it returned",
+    "Implfree-accepted-while-terminated": "free run: RunOnLoop/SetTimeout/SetInterval accepted work on a terminated loop that had not been started again",
+    "Implfree-refused-after-restart": "free run: a restarted loop refused work",
     "Implfree-uncleared-timeout-never-ran": "free run: a short timeout set on a loop that was started and never stopped did not run",
 }
 _FREE = {
@@ -303,7 +305,7 @@ _FREE = {
     "C07": ["Implfree-stop-did-not-return", "Implfree-run-did-not-return-after-stop", "Implfree-accepted-not-run-once", "Implfree-timeout-ran-twice",
             "Implfree-api-call-panicked", "Implfree-uncleared-timeout-never-ran", "Implfree-accepted-function-never-ran"],
     "C08": ["Implfree-goroutine-left-after-terminate", "Implfree-terminate-did-not-return", "Implfree-ran-after-clear", "Implfree-refused-ran",
-            "Implfree-ran-after-terminate"],
+            "Implfree-ran-after-terminate", "Implfree-accepted-while-terminated", "Implfree-refused-after-restart"],
 }
 _LOOP_TRUST = ["Go runtime: goroutine scheduling between verifPoints is controlled by parking every thread at every point and granting one at a time; "
                "stability (all threads parked or blocked) is read from runtime.Stack goroutine states",
@@ -320,7 +322,7 @@ _LOOP_NOTE = ("Proof is about Model/Loop.v, a transition system over the 33 veri
 
 def _loop(profile, level_text, rule, relevant, assumptions):
     pid = {"overlap": "C03", "fifo": "C04", "timers": "C05", "count": "C06", "stop": "C07", "terminate": "C08"}[profile]
-    return dict(harness="loop", module="Cases.LoopCheck", env={"VERIF_PROFILE": profile}, overlay=True, shard=30, codes=_LOOP_CODES,
+    return dict(harness="loop", extra_harness="loopfree", module="Cases.LoopCheck", env={"VERIF_PROFILE": profile}, overlay=True, shard=30, codes=_LOOP_CODES,
                 relevant=set(relevant) | set(_FREE[pid]) | {"Implhost-process-died"}, level_text=level_text, level_note=_LOOP_NOTE, rule=rule, trusted=_LOOP_TRUST,
                 assumptions=assumptions, harness_timeout=1500)
 
@@ -351,7 +353,8 @@ PROPS["C04"] = _loop("fifo",
 PROPS["C05"] = _loop("timers",
     "C05_one_shot_at_most_once, C05_cancelled_never_runs_again (over every continuation, restarts included), C05_clear_cancels, C05_clear_harmless, "
     "C05_live_timeout_registered, C05_delay_exact / C05_delay_never_shorter (msToDuration = milliseconds x 10^6 saturating, from the translated "
-    "source), C05_interval_period",
+    "source), C05_interval_period; C05_live_timeout_can_run (possibility form of 'does run provided the loop keeps running': at the loop head a live "
+    "timeout keeps run() from leaving and its expiry, job arm, delivery and call are all enabled and start its callback)",
     _LOOP_RULE % ("", ""), ["SpecFail4", "SpecFail5", "Impltimer-early", "Impltimer-arguments-wrong", "Implstuck"],
     ["'always eventually' (liveness under real time) is exercised by the runs, not proved; never-early in real time rests on time.AfterFunc/NewTicker"])
 PROPS["C06"] = _loop("count",
@@ -469,6 +472,7 @@ PROPS["C17"] = dict(
     codes={"SpecFail1": "a loadable file was fetched more than once", "SpecFail2": "a runtime saw the module state of another runtime",
            "SpecFail3": "a runtime evaluated a module body a number of times different from the distinct loadable files it required",
            "Diff1": "loader calls differ from the compile-cache model", "Impldata-race": "the Go race detector reported a data race",
+           "Implmodule-state-shared-between-runtimes": "a module loaded from the shared Registry used another runtime's module instance (console printed through another runtime's util)",
            "Impldeadlock-or-hang": "the workload did not finish within 120 s", "Implworkload-crashed": "the workload process crashed"},
     trusted=["Go memory model; Go race detector (reports only executed interleavings)", "goja"],
     assumptions=["RegisterNativeModule and the Registry options are called before the Registry is shared", "Start/Stop/Terminate from one goroutine"],
